@@ -133,7 +133,11 @@ def make_set(seed, n=300, nhubs=12, flavour=None):
     flavour None: boundary-directed coordinates (see _coords).
     flavour "case": the seqids are pairs differing only in letter case; about half of the features have a twin with
         the same coordinates (and the same Parent values) on the other spelling.
-    flavour "binends": small features inside the first 128 kb and features around bin ends of every level."""
+    flavour "binends": small features inside the first 128 kb and features around bin ends of every level.
+    flavour "idless": boundary-directed coordinates; about 35% of the non-hub features are written WITHOUT an ID attribute
+        (model id: '<featuretype>_<n>', n counting the id-less lines of that featuretype in file order), and about half of
+        those are written 2-4 times byte-identically (same seqid, coordinates, strand, featuretype, Parent values):
+        "twins" maps the id of every such feature to the text of its line."""
     rng = random.Random(seed * 7919 + 13)
     vals = boundary_values()
     top = [v for v in vals if LIMIT - 2 <= v <= LIMIT + 2]
@@ -146,6 +150,8 @@ def make_set(seed, n=300, nhubs=12, flavour=None):
         for a, b in pairs:
             partner[a], partner[b] = b, a
         n_all, n = n, (2 * n) // 3
+    elif flavour == "idless":
+        n_all, n = n, (3 * n) // 5
     elif flavour == "binends":
         ends = []
         for k in range(5):
@@ -186,6 +192,16 @@ def make_set(seed, n=300, nhubs=12, flavour=None):
                     t["strand"] = rng.choice(STRANDS)
                 feats.append(t)
         n = len(feats)
+    if flavour == "idless":
+        for f in list(feats):
+            if f["id"] in hubs or rng.random() >= 0.35:
+                continue
+            f["noid"] = True
+            if rng.random() < 0.55:
+                for _ in range(rng.choice([1, 1, 2, 3])):
+                    if len(feats) < n_all:
+                        feats.append(dict(f, parents=list(f["parents"])))
+        n = len(feats)
     if ends is not None:
         used = sorted({f["start"] for f in feats} | {f["end"] for f in feats})
         focus = sorted(set(rng.sample(used, min(len(used), 24)) + [LIMIT - 1, LIMIT, 1]))
@@ -193,19 +209,84 @@ def make_set(seed, n=300, nhubs=12, flavour=None):
     order = list(range(n))
     rng.shuffle(order)
     feats = [feats[i] for i in order]
+    twins = {}
+    if flavour == "idless":
+        # the id under which a line without ID attribute is stored: '<featuretype>_<n>' in file order
+        count, texts = {}, {}
+        for f in feats:
+            if f.get("noid"):
+                count[f["featuretype"]] = count.get(f["featuretype"], 0) + 1
+                f["id"] = "%s_%d" % (f["featuretype"], count[f["featuretype"]])
+                texts.setdefault(line_of(f), []).append(f["id"])
+        twins = {i: t for t, ids in texts.items() if len(ids) > 1 for i in ids}
     return {"features": feats, "text": text_of(feats), "focus": focus, "seqids": seqids, "hubs": hubs,
-            "partner": partner, "binends": ends, "flavour": flavour}
+            "partner": partner, "binends": ends, "flavour": flavour, "twins": twins}
+
+
+def line_of(f):
+    attrs = [] if f.get("noid") else ["ID=%s" % f["id"]]
+    if f["parents"]:
+        attrs.append("Parent=" + ",".join(f["parents"]))
+    if not attrs:
+        attrs.append("Name=anon")
+    return "\t".join([f["seqid"], "gv", f["featuretype"], str(f["start"]), str(f["end"]), ".", f["strand"], ".",
+                      ";".join(attrs)])
 
 
 def text_of(feats):
-    lines = []
-    for f in feats:
-        attrs = "ID=%s" % f["id"]
-        if f["parents"]:
-            attrs += ";Parent=" + ",".join(f["parents"])
-        lines.append("\t".join([f["seqid"], "gv", f["featuretype"], str(f["start"]), str(f["end"]), ".", f["strand"],
-                                ".", attrs]))
-    return "\n".join(lines) + "\n"
+    return "\n".join(line_of(f) for f in feats) + "\n"
+
+
+NEW_SEQIDS = ["ctgNEW", "chrUn_9", "3", "Chr1_alt"]
+
+
+def make_update(seed, SET):
+    """What a second FeatureDB object does to the database file made from SET (all ids carry an ID attribute):
+    {"new_seqid": a seqid no stored feature has, "steps": [{"add": [features], "delete": [ids]}, ...]}.
+
+    Step 1 always adds features on the brand-new seqid AND on existing seqids (children of stored parent features among
+    them, at coordinates of stored features and on bin boundaries); later steps add more and delete stored features
+    (never a parent feature), some of them added one step earlier."""
+    rng = random.Random(seed * 104729 + 7)
+    vals = boundary_values()
+    new_seqid = rng.choice([s for s in NEW_SEQIDS if s not in SET["seqids"]])
+    old = SET["features"]
+    hubs = list(SET["hubs"])
+    where = {f["id"]: f["seqid"] for f in old}
+    live = [f["id"] for f in old if f["id"] not in hubs]
+    steps, k = [], 0
+    for si in range(rng.choice([1, 2, 2, 3])):
+        add = []
+        for _ in range(rng.randrange(12, 40)):
+            k += 1
+            r = rng.random()
+            if r < 0.4:
+                m = rng.choice(old)
+                a, b = m["start"] + rng.choice([-1, 0, 0, 1]), m["end"] + rng.choice([-1, 0, 0, 1])
+                a = max(1, a)
+                b = max(a, b)
+            else:
+                a, b = _coords(rng, vals, SET["focus"])
+            f = {"id": "u%d" % k, "seqid": new_seqid if rng.random() < 0.45 else rng.choice(SET["seqids"]),
+                 "featuretype": rng.choice(TYPES), "strand": rng.choice(STRANDS), "start": a, "end": b, "parents": []}
+            r = rng.random()
+            if r < 0.12:
+                f["id"] = "uh%d" % k
+                f["featuretype"] = rng.choice(["gene", "mRNA"])
+                hubs.append(f["id"])
+                where[f["id"]] = f["seqid"]
+            elif r < 0.65:
+                f["parents"] = sorted(rng.sample(hubs, rng.choice([1, 1, 2])))
+                if rng.random() < 0.6:
+                    f["seqid"] = where[f["parents"][0]]
+            add.append(f)
+        delete = []
+        if si > 0 or rng.random() < 0.5:
+            delete = rng.sample(live, min(len(live), rng.randrange(1, 9)))
+            live = [i for i in live if i not in delete]
+        live += [f["id"] for f in add if not f["id"].startswith("uh")]
+        steps.append({"add": add, "delete": delete})
+    return {"new_seqid": new_seqid, "steps": steps, "hubs": hubs}
 
 
 REGION_FORMS = [("tuple", 20), ("string", 14), ("feature", 16), ("kw", 14), ("kw-noseqid", 10), ("start-only", 9),
